@@ -82,6 +82,91 @@ type runner struct {
 	maxLen  int
 	rewinds int
 	proofs  int
+
+	kept []*keptHeader // every header object handed out, with a deep copy taken at that moment
+}
+
+// keptHeader: "a returned header never changes" (it must not alias accumulator buffers)
+type keptHeader struct {
+	hd     *hexary.MerkleHeader
+	root   []byte
+	leaves int64
+	xs     [][]byte // the sequence it was returned for
+	what   string
+}
+
+func isPow16(n int64) bool {
+	for n > 1 && n%16 == 0 {
+		n /= 16
+	}
+	return n == 1
+}
+
+func (r *runner) keep(hd *hexary.MerkleHeader, what string) {
+	if hd == nil || (len(r.kept) >= 200 && !isPow16(hd.Leaves)) {
+		return
+	}
+	r.kept = append(r.kept, &keptHeader{hd: hd, root: append([]byte(nil), hd.RootHash...), leaves: hd.Leaves,
+		xs: r.xs[:len(r.xs):len(r.xs)], what: what})
+}
+
+// recheck compares every kept header object with the copy taken when it was returned
+func (r *runner) recheck(after string) {
+	for _, k := range r.kept {
+		if !bytes.Equal(k.hd.RootHash, k.root) || k.hd.Leaves != k.leaves {
+			r.fail("the header returned by %s at length %d (%x,%d) changed to (%x,%d) after a later %s at length %d",
+				k.what, k.leaves, k.root, k.leaves, k.hd.RootHash, k.hd.Leaves, after, len(r.xs))
+			return
+		}
+	}
+}
+
+// laterProofs: headers kept from earlier lengths (all powers of 16, a few others) must still prove
+// and verify their leaves at the end of the script (tree nodes are never deleted from the bucket)
+func (r *runner) laterProofs() {
+	others := 0
+	for _, k := range r.kept {
+		if k.leaves == 0 || int64(len(k.xs)) != k.leaves || !strings.HasPrefix(k.what, "Finalize") {
+			continue // only Finalize stores the partial nodes a proof needs
+		}
+		if !isPow16(k.leaves) {
+			if others >= 6 {
+				continue
+			}
+			others++
+		}
+		for _, key := range []int64{0, k.leaves / 2, k.leaves - 1} {
+			var msg string
+			p := hxlib.Catch(func() {
+				mt, err := hexary.NewMerkleTree(r.tbk, k.hd, 0)
+				if err != nil {
+					msg = err.Error()
+					return
+				}
+				proof, err := mt.Prove(key, 0)
+				if err != nil {
+					msg = "Prove: " + err.Error()
+					return
+				}
+				v, err := hexary.NewMerkleTree(newMapBucket(), &hexary.MerkleHeader{RootHash: k.root, Leaves: k.leaves}, 0)
+				if err != nil {
+					msg = err.Error()
+					return
+				}
+				if err := v.Add(key, k.xs[key], proof); err != nil {
+					msg = "Add: " + err.Error()
+				}
+			})
+			if p != "" {
+				msg = "panic: " + p
+			}
+			if msg != "" {
+				r.fail("the header returned by %s at length %d no longer proves key %d at the end of the script (length %d): %s",
+					k.what, k.leaves, key, len(r.xs), msg)
+				return
+			}
+		}
+	}
 }
 
 func newRunner(coq bool) *runner {
@@ -199,6 +284,7 @@ func (r *runner) checkHeader(what string, mh *hexary.MerkleHeader, xs [][]byte) 
 		r.fail("%s at length %d: header (%x,%d) is not the Merkle root of the sequence (%x,%d)",
 			what, len(xs), mh.RootHash, mh.Leaves, want, len(xs))
 	}
+	r.keep(mh, what)
 	code := 0
 	if len(mh.RootHash) > 0 {
 		code = r.ref(mh.RootHash) + 1
@@ -227,6 +313,7 @@ func (r *runner) finalize(what string) *hexary.MerkleHeader {
 		return nil
 	}
 	r.reference(r.xs)
+	r.keep(hd, "Finalize")
 	return hd
 }
 
@@ -467,6 +554,10 @@ func runScenario(sc scenario, coq bool) *runner {
 			r.fail("%s at length %d panics: %s", o.K, len(r.xs), p)
 			break
 		}
+		r.recheck(o.K)
+	}
+	if r.oracle == "" {
+		r.laterProofs()
 	}
 	return r
 }
@@ -668,6 +759,90 @@ func (b *builder) mutated(rg *rand.Rand, key int64, kind int) {
 	if o, ok := mutate(rg, b.s, key, kind); ok {
 		b.add(o)
 	}
+}
+
+// one verifying tree reused across many Adds: genuine full proofs (any key order) fill its node
+// cache and bucket; altered FULL proofs are then offered for keys whose path nodes it already holds.
+// An altered element must be rejected whatever the verifier has cached.
+func genVerifier(rg *rand.Rand, n int) scenario {
+	b := newBuilder(fmt.Sprintf("verifier-%d", n))
+	for _, o := range adds(rg, n) {
+		b.add(o)
+	}
+	b.add(opSpec{K: "finalize"})
+	b.add(opSpec{K: "bnew"})
+	badd := func(key int64, from int) {
+		p := b.s.proof(key, from)
+		if p == nil {
+			return
+		}
+		expect := "accept"
+		if from < 0 {
+			expect = "" // a minimal proof needs the path of key-1 in the verifier: compared with the model only
+		}
+		b.add(opSpec{K: "badd", Key: key, H: hex.EncodeToString(b.s.r.xs[key]), Proof: hexProof(p), Expect: expect})
+	}
+	altered := func(key int64) {
+		kinds := []int{0, 0, 0, 1, 2, 3, 3, 4, 5, 6, 6, 8}
+		if o, ok := mutate(rg, b.s, key, kinds[rg.Intn(len(kinds))]); ok {
+			o.K = "badd"
+			b.add(o)
+		}
+	}
+	keys := rg.Perm(n)
+	if rg.Intn(2) == 0 { // ascending order, as a syncing node adds them
+		for i := range keys {
+			keys[i] = i
+		}
+	}
+	steps := n
+	if steps > 120 {
+		steps = 120
+	}
+	for _, k := range keys[:steps] {
+		key := int64(k)
+		if rg.Intn(3) == 0 {
+			altered(key) // before the genuine one: nothing of this key is cached yet (its ancestors may be)
+		}
+		badd(key, 0)
+		altered(key) // the same key again, every node of its path is cached now
+		// a neighbour in the same bottom node, and one that shares only upper nodes
+		for _, d := range []int64{1, -1, 16, -17, 256} {
+			if k2 := key + d; k2 >= 0 && k2 < int64(n) && rg.Intn(3) == 0 {
+				altered(k2)
+			}
+		}
+		if rg.Intn(4) == 0 {
+			badd(int64(rg.Intn(n)), -1) // a minimal proof in between
+		}
+	}
+	return b.sc
+}
+
+// headers handed out at the lengths 16^k (the root is then a child of the top root node itself)
+// and elsewhere, kept while the sequence grows past 16^(k+1)+16^k, where the buffers of the root
+// nodes have been reused; the runner re-compares every kept header after every later operation
+// and proves against the kept Finalize headers at the end.
+func genAlias(rg *rand.Rand, top int) scenario {
+	b := newBuilder(fmt.Sprintf("alias-%d", top))
+	b.add(opSpec{K: "finalize"})
+	for i := 1; i <= top; i++ {
+		b.add(opSpec{K: "add", H: randHash(rg)})
+		l := int64(i)
+		switch {
+		case isPow16(l):
+			b.add(opSpec{K: "finalize"})
+			b.add(opSpec{K: "header"})
+		case isPow16(l-1) || isPow16(l+1) || l%16 == 0 && rg.Intn(8) == 0 || rg.Intn(40) == 0:
+			if rg.Intn(2) == 0 {
+				b.add(opSpec{K: "finalize"})
+			} else {
+				b.add(opSpec{K: "header"})
+			}
+		}
+	}
+	b.add(opSpec{K: "finalize"})
+	return b.sc
 }
 
 // short sequence: header at every length, proof of every index, every rewind point
@@ -901,6 +1076,17 @@ func gen(c *hxlib.Ctx) {
 		ls = append(ls, int64(n+5), 16, 256, 0, 3)
 		emit(c, "jump", genJump(rg, n, ls))
 	}
+	for _, n := range []int{17, 33, 272, 300} {
+		emit(c, "verifier", genVerifier(rg, n))
+	}
+	for i := 0; i < c.N(4); i++ {
+		emit(c, "verifier", genVerifier(rg, 18+rg.Intn(600)))
+	}
+	emit(c, "alias", genAlias(rg, 300))
+	emit(c, "alias", genAlias(rg, 4400))
+	if c.Tier == "thorough" {
+		emit(c, "alias", genAlias(rg, 70000))
+	}
 	for i := 0; i < c.N(30); i++ {
 		emit(c, "random", genRandom(rg, 20+rg.Intn(300)))
 	}
@@ -928,7 +1114,7 @@ func main() {
 	hxlib.Main(hxlib.Spec{
 		ID: "C28",
 		Rule: "a case is an operation script on one hexary.Accumulator over a map database (Add, GetMerkleHeader, Finalize, SetLen, reopening on the same buckets) with MerkleTree.Prove and MerkleTree.Add of genuine, partial and altered proofs. " +
-			"short: lengths 0..3, around 16/32/48/256/272 and random ones up to 300, header after (nearly) every Add, a full proof for every index and an altered proof for every index (every fourth on average beyond length 64), then every rewind point downwards; cross: lengths 15..17, 255..257, 4095..4097 (thorough: 65535..65537) with boundary keys, a builder fed partial proofs in key order, rewinds to the boundaries; jump: direct rewinds followed by growing again with other hashes; random scripts. " +
+			"short: lengths 0..3, around 16/32/48/256/272 and random ones up to 300, header after (nearly) every Add, a full proof for every index and an altered proof for every index (every fourth on average beyond length 64), then every rewind point downwards; cross: lengths 15..17, 255..257, 4095..4097 (thorough: 65535..65537) with boundary keys, a builder fed partial proofs in key order, rewinds to the boundaries; jump: direct rewinds followed by growing again with other hashes; verifier: one MerkleTree reused across many Adds (genuine full proofs in random or ascending key order), altered full-length proofs offered before and after the genuine ones for the same key, its neighbours and keys sharing upper nodes; alias: Finalize/GetMerkleHeader at every 16^k and around, sequence grown to 300 and 4400 (thorough 70000) while every header object handed out is re-compared with a deep copy after every later operation and the kept Finalize headers must still prove their leaves at the end; random scripts. " +
 			"Non-trivial: the script rewinds to a length strictly between 0 and the current length, or proves keys of a sequence longer than 16.",
 		Shard:    3,
 		Preamble: "From Coq Require Import Uint63.\nFrom GoloopRun Require Import Run_C28.",
